@@ -468,6 +468,9 @@ impl Local {
             self.collecting.set(false);
         }
 
+        // Read the count again: a destructor run by the collection above may have created a
+        // guard that is still alive (e.g. stored in a thread-local).
+        let guard_count = self.guard_count.get();
         self.guard_count.set(guard_count - 1);
         if guard_count == 1 {
             self.epoch.store(Epoch::starting(), Ordering::Release);
